@@ -286,6 +286,10 @@ def shrink_case(case, arity=ARITY, keep_last=1):
             elif a.lstrip("-").isdigit() and f[0] not in ("cha", "ch"):
                 v = int(a)
                 for nv in (0, v // 2, v - 1 if v > 0 else v + 1):
+                    if f[0] in ("hl", "vl") and j == 4 and nv < 1:
+                        continue      # style 0 is not a TickitLineStyle (its glyph is NUL, which the mock terminal cannot print)
+                    if f[0] == "nb" and nv < 1:
+                        continue      # tickit_renderbuffer_new(n, 0) writes cells[line][0] of an empty allocation: outside the domain
                     if nv != v:
                         g = list(f); g[j] = str(nv)
                         yield " ".join(head + ops[:i] + [" ".join(g)] + ops[i + 1:])
